@@ -72,6 +72,7 @@ class SequentialCB(Evaluator):
         learn,eval = self._learn,self._eval
 
         pred = (learn and learn != 'off') or (eval and (eval != 'ips' or not has_score))
+        pred = pred or (eval and ('action' in self._record or 'probability' in self._record))
         off  = (learn and learn != 'on')  or (eval and eval != 'on')
         rwds = (learn == 'on')            or (eval == 'on')
 
